@@ -51,9 +51,15 @@ class C07(Driver):
                 ends += ["timeout", "timeout"]
             if kind in ("select", "selectg", "gather"):
                 ends += ["other", "other"]
+            if kind not in ("gather", "accept"):
+                # the wait is issued under a C -> Janet callback: its suspension is coerced to an error at once,
+                # whatever it registered (timer, channel entry, listener, process/thread wait) is abandoned
+                ends += ["cframe"]
             end = "complete" if last else r.choice(ends)
             delta = r.choice([1, 1, 2, 3, 5])
             st = {"i": i, "kind": kind, "end": end, "dur": dur}
+            if end == "cframe":
+                st["nested"] = r.choice([0, 1, 1])     # directly in the callback / inside a try in the callback
             if kind == "sleep":
                 st["ms"] = dur if end == "complete" else dur + delta
             if end == "deadline":
@@ -62,6 +68,8 @@ class C07(Driver):
                 # a deadline that outlives its body: it expires while the victim is in a later wait
                 st["deadline"] = dur + r.choice([1, 2, 3, 6, 12, 25])
                 st["late"] = 1
+                if r.random() < 0.4:
+                    st["via_label"] = 1     # the body leaves through a user signal (return to a label), not by returning
             if end == "timeout":
                 st["timeout"] = dur
             if kind in ("read", "chunk"):
@@ -110,8 +118,11 @@ class C07(Driver):
                 adv.append({"t": fire, "a": "give", "ch": [i, 0], "v": i * 1000 + 1})
             elif kind == "accept":
                 adv.append({"t": fire, "a": "connect", "p": i})
+            if kind in ("take", "give", "select", "selectg") and r.random() < 0.3:
+                # abandoned takers queued on this step's channel before the victim gets there
+                st["prestale"] = [r.choice(["cancel", "select"]) for _ in range(r.randint(1, 3))]
             steps.append(st)
-            t += dur
+            t += 0 if end == "cframe" else dur
         p = {}
         if r.random() < 0.5:
             for k in ("eintr_r", "eagain_r", "eagain_w", "short_r", "epoll_eintr", "epoll_delay", "epoll_reorder", "clock_jump"):
@@ -146,6 +157,13 @@ class C07(Driver):
             if st["kind"] == "write":
                 # fill the pipe exactly to its capacity so that the victim's write has to wait
                 A("  (ev/write (P [%d :w]) (sim/fill %d 0 4096))" % (i, 50 + i))
+        for st in steps:
+            for j, how in enumerate(st.get("prestale", [])):
+                i = st["i"]
+                if how == "cancel":
+                    A("  (let [h (ev/go (fn [] (protect (ev/take (CH [%d 0])))))] (ev/sleep 0) (ev/cancel h \"helper\") (ev/sleep 0))" % i)
+                else:
+                    A("  (let [hc (ev/chan 0) h (ev/go (fn [] (protect (ev/select (CH [%d 0]) hc))))] (ev/sleep 0) (ev/give hc %d) (ev/sleep 0))" % (i, 900000 + j))
         A("  nil)")
 
         def op(st):
@@ -189,7 +207,12 @@ class C07(Driver):
         for st in steps:
             i = st["i"]
             body = op(st)
-            if "deadline" in st:
+            if st["end"] == "cframe":
+                inner = "(try %s ([e] (error e)))" % body if st.get("nested") else body
+                body = "(do (var cv nil) (string/replace \"a\" (fn [x] (set cv %s) \"b\") \"xax\") cv)" % inner
+            if "deadline" in st and st.get("via_label"):
+                body = "(label lbl%d (ev/with-deadline %s (return lbl%d %s)))" % (i, st["deadline"] / 1000.0, i, body)
+            elif "deadline" in st:
                 body = "(ev/with-deadline %s %s)" % (st["deadline"] / 1000.0, body)
             A("  (sim/ev :inv %d)" % i)
             A("  (let [[ok v] (protect %s)] (sim/ev :ret %d ok v))" % (body, i))
@@ -330,6 +353,13 @@ class C07(Driver):
             elif cls == "timeout":
                 ok = "timeout" in st and dt >= (st["timeout"] - 1) * 1000000
                 why = "this wait has no timeout" if "timeout" not in st else "timeout fired early"
+            elif st["end"] == "cframe" and cls == "error" and ("coerced from await" in payload or
+                                                                 ("channel inside janet_call" in payload and kind in ("take", "give", "select", "selectg"))):
+                ok = True       # (channel operations refuse to start under a C frame: nothing is registered)
+            elif st["end"] == "cframe" and not (kind in ("give", "selectg", "take", "select") and st.get("prestale") is None and False):
+                # under a C frame the wait cannot complete by suspending; it may only complete without waiting
+                # (nothing in these plans lets it), so anything but the coercion error is unexplained
+                ok, why = False, "a wait issued under a C callback returned %s instead of the coercion error" % cls
             elif kind == "sleep":
                 if payload == "true nil":
                     need = st["ms"] * 1000000
@@ -613,6 +643,15 @@ class C07(Driver):
             q = cp()
             del q["by"]
             yield q
+        for k, st in enumerate(plan["steps"]):
+            if st.get("prestale"):
+                q = cp()
+                del q["steps"][k]["prestale"]
+                yield q
+            if st.get("via_label"):
+                q = cp()
+                del q["steps"][k]["via_label"]
+                yield q
         for k, st in enumerate(plan["steps"]):
             if st.get("late"):
                 q = cp()
